@@ -42,6 +42,7 @@ type (
 		disp            *cmdDispatcher
 		cmdQueue        *[]*cmdContext
 		cmdQueueAborted bool
+		execDsc         *dataStoreCommand // owner of the exclusive data store lock while EXEC runs
 		watches         map[watchKey]uint64
 		blocked         int32
 		unblockPending  int32
